@@ -245,7 +245,11 @@ func newAbsWorld() {
 	absW = &absWorldT{validated: map[uint64]bool{}, aus: map[uint64]*consensus.ApplyUpdate{}}
 }
 
-func newAbsChain(opts ...ManagerOption) *absChain {
+func newAbsChain(opts ...ManagerOption) *absChain { return newAbsChainOn(nil, nil, opts...) }
+
+// newAbsChainOn builds the chain over a caller-supplied DB (default: a fresh
+// MemDB); wrap, if given, wraps the store handed to the manager.
+func newAbsChainOn(db DB, wrap func(Store) Store, opts ...ManagerOption) *absChain {
 	newAbsWorld()
 	n, genesis := TestnetZen()
 	n.HardforkOak.Height = 0
@@ -261,12 +265,19 @@ func newAbsChain(opts ...ManagerOption) *absChain {
 	genesis.Transactions = nil
 	genesis.Nonce = 0
 	c := &absChain{n: n, genesis: genesis, db: NewMemDB(), parent: map[uint64]uint64{}, height: map[uint64]uint64{}, next: 1}
-	store, tip, err := NewDBStore(c.db, n, genesis, nil)
+	if db == nil {
+		db = c.db
+	}
+	store, tip, err := NewDBStore(db, n, genesis, nil)
 	if err != nil {
 		panic(err)
 	}
 	c.store = store
-	c.m = NewManager(store, tip, opts...)
+	var st Store = store
+	if wrap != nil {
+		st = wrap(store)
+	}
+	c.m = NewManager(st, tip, opts...)
 	c.height[0] = 0
 	return c
 }
